@@ -1,6 +1,7 @@
 import HapVerif.Model.C15
 import HapVerif.Model.C15Track
 import HapVerif.Drv.C03
+import HapVerif.Drv.C15Run
 /-!
 Driver of C15.  `C15 world <ops...> => <sni>=<crt>,...` and `C15 hist <ops with sync> => <sni>=<disk>|<running>,...`;
 `<crt>` = `default` | `ns/name@version` | `-` (no such file / not loaded) | `?hash` (unknown content).
@@ -38,6 +39,14 @@ def parseItem (s : Str) : Option (Str × Option Crt × Option (Option Crt)) :=
     | (d, some r) => some (sni, parseCrt d, some (parseCrt r))
   | _ => none
 
+/-- a certificate that several Secrets hold is reported by CONTENT (`shared@v`, parsed as `.secret [] shared v`):
+it stands for the certificate `target` when `target` has that content (`Run.contentOf`), for itself otherwise -/
+def resolveShared (target x : Crt) : Crt :=
+  match x with
+  | .secret ns n v =>
+    if ns = [] ∧ n = "shared".toList ∧ Run.contentOf target = .shared v then target else x
+  | .dflt => x
+
 def handleCase (toks : List String) (impl : String) : Verdict :=
   match worldOf toks with
   | none => bad "parse-ops"
@@ -48,17 +57,18 @@ def handleCase (toks : List String) (impl : String) : Verdict :=
       let c := fullSync w
       let l := crtList c
       let model := items.map fun (sni, _, _) => (sni, sniCrt l sni)
-      let agree := (items.zip model).all fun ((_, d, _), (_, m)) => d = some m
+      let agree := (items.zip model).all fun ((_, d, _), (_, m)) => d.map (resolveShared m) = some m
       let oracle := items.findSome? fun (sni, d, r) =>
         match d with
         | none => some "certificate-file-missing-or-unknown"
-        | some got =>
+        | some got0 =>
+          let got := resolveShared (specCrt w sni) got0
           match checkSni w sni got with
           | some sig => some sig
           | none =>
             match r with
             | none => none
-            | some run => if run = some got then none else some "running-certificate-differs-from-disk"
+            | some run => if run.map (resolveShared got) = some got then none else some "running-certificate-differs-from-disk"
       { model := ",".intercalate (model.map fun (sni, m) => String.ofList sni ++ "=" ++ showCrt m),
         agree := agree, oracle := oracle, trivial := c.tls.isEmpty }
 
@@ -146,6 +156,8 @@ def handle (args : List String) (impl : String) : Verdict :=
   | "trk" :: toks => if impl = "PANIC" then { model := "-", agree := false, oracle := some "panic" } else handleTrk toks impl
   | "world" :: toks => if impl = "PANIC" then { model := "-", agree := false, oracle := some "panic" } else handleCase toks impl
   | "hist" :: toks => if impl = "PANIC" then { model := "-", agree := false, oracle := some "panic" } else handleCase toks impl
+  -- the running side (Model/C15Run.lean, Drv/C15Run.lean): what the running HAProxy presents after every reconciliation
+  | "run" :: toks => if impl = "PANIC" then { model := "-", agree := false, oracle := some "panic" } else Run.handleRun toks impl
   | _ => bad "C15"
 
 end HapVerif.C15
